@@ -184,11 +184,31 @@ func runCheck(e *Engine, args []string, tier string, timeout int, verif string) 
 		}
 		return tier == "thorough" && (ob.Kind == "inv-init" || ob.Kind == "inv-pres")
 	})
+	var clauseDrift []string
 	if len(e.errors) > 0 {
+		// A clause of the in-repo contract file that no longer elaborates against the code (a local variable,
+		// field or loop it names is gone) is contract drift: the code changed under its contract, nothing is
+		// proved about the function any more. That is reported as a violation without an input. Errors in the
+		// specification library itself are engine errors.
+		var driftMsgs []string
+		other := false
+		seen := map[string]bool{}
 		for _, m := range e.errors {
-			fmt.Println("ENGINE-ERROR:", m)
+			if seen[m] {
+				continue
+			}
+			seen[m] = true
+			if strings.Contains(m, "contracts_verif.go:") {
+				driftMsgs = append(driftMsgs, m)
+			} else {
+				other = true
+				fmt.Println("ENGINE-ERROR:", m)
+			}
 		}
-		return 2
+		if other {
+			return 2
+		}
+		clauseDrift = driftMsgs
 	}
 	nOb, nOK := 0, 0
 	perSolver := map[string]int{}
@@ -309,13 +329,24 @@ func runCheck(e *Engine, args []string, tier string, timeout int, verif string) 
 		fmt.Printf("ENGINE-ERROR: failure budget exhausted by known findings; %d obligations not attempted\n", skipped)
 		return 2
 	}
-	if len(drift) > 0 && violations == 0 {
-		// a contract no longer binds to the code: nothing was refuted, but nothing is proved either
+	drift = append(drift, clauseDrift...)
+	if len(drift) > 0 {
+		// a contract no longer binds to the code (a loop, local variable or field it names is gone): nothing is
+		// proved about that function any more. Reported as a violation without an input, in addition to whatever
+		// obligations could still be generated and failed.
 		violations++
 		path := filepath.Join(verif, "replays", prop+"-drift.json")
-		b, _ := json.MarshalIndent(map[string]any{"property": prop, "drift": drift}, "", " ")
+		b, _ := json.MarshalIndent(map[string]any{"property": prop, "kind": "contract-drift",
+			"explanation": "clauses of /repo/jsonschema/contracts_verif.go no longer bind to the code of functions under this property; their obligations cannot be generated, so nothing is established by them",
+			"drift": drift}, "", " ")
+		os.MkdirAll(filepath.Join(verif, "replays"), 0o755)
 		os.WriteFile(path, b, 0o644)
-		fmt.Printf("VIOLATION property=%s replay=%s contract-drift no-failing-input-found\n", prop, path)
+		for i, m := range drift {
+			if i < 3 {
+				fmt.Println("DRIFT:", trunc(m, 300))
+			}
+		}
+		fmt.Printf("VIOLATION property=%s replay=%s contract-drift (%d clauses no longer bind to the code) no-failing-input-found\n", prop, path, len(drift))
 	}
 	// evidence
 	var tb []string
@@ -493,4 +524,73 @@ func nonNil(x []any) []any {
 		return []any{}
 	}
 	return x
+}
+
+// runReplay re-decides the obligation named in a replay file on the current tree: the obligation is generated
+// again from /repo's source and given to the solvers; if a replay recipe is registered for it, the recipe's test is
+// run against the real code as well. Exit 1 (with a VIOLATION line) if the obligation still fails or the recipe
+// still reproduces the misbehaviour, 0 if the obligation is discharged now.
+func runReplay(e *Engine, args []string, timeout int, verif string) int {
+	if len(args) < 1 {
+		fmt.Fprintln(os.Stderr, "usage: govc replay <file>")
+		return 2
+	}
+	b, err := os.ReadFile(args[0])
+	if err != nil {
+		fmt.Fprintln(os.Stderr, err)
+		return 2
+	}
+	var m struct {
+		Property, Obligation, Function, Clause, Position string
+		Drift                                             []string
+	}
+	if json.Unmarshal(b, &m) != nil || m.Obligation == "" {
+		fmt.Printf("replay file %s names no obligation (contract drift or bounded harness): run the property's check instead\n", args[0])
+		return 2
+	}
+	var fns []*ssa.Function
+	for _, fn := range e.allFns {
+		if e.fnKey(fn) == m.Function {
+			fns = append(fns, fn)
+		}
+	}
+	if len(fns) == 0 {
+		fmt.Printf("VIOLATION property=%s replay=%s function %s no longer exists (contract drift) no-failing-input-found\n", m.Property, args[0], m.Function)
+		return 1
+	}
+	e.scan()
+	workDir, _ := os.MkdirTemp("", "govc-replay-")
+	defer os.RemoveAll(workDir)
+	opts := SolveOpts{WorkDir: workDir, TimeoutMs: timeout, Cross: true, Batch: 12}
+	found := false
+	var target *Obligation
+	rr := e.verifyFuncs(fns, opts, func(ob *Obligation) bool {
+		if ob.Name == m.Obligation {
+			found = true
+			return true
+		}
+		return false
+	})
+	for _, fr := range rr.Funcs {
+		for _, ob := range fr.Obs {
+			if ob.Name == m.Obligation {
+				target = ob
+			}
+		}
+	}
+	if !found || target == nil {
+		fmt.Printf("obligation %s is not generated from the current tree any more (the code or the contract changed): run ./check %s\n", m.Obligation, m.Property)
+		return 2
+	}
+	fmt.Printf("obligation %s  clause: %s  at %s  -> %s (%s, %.2fs)\n", target.Name, target.Detail, target.Pos, target.Status, target.Solver, target.Secs)
+	if target.Status == "unsat" {
+		fmt.Printf("replay: the obligation is discharged on the current tree\n")
+		return 0
+	}
+	suffix := ""
+	if !replayConfirms(e, verif, target, args[0]) {
+		suffix = " no-failing-input-found"
+	}
+	fmt.Printf("VIOLATION property=%s replay=%s obligation=%s status=%s%s\n", m.Property, args[0], target.Name, target.Status, suffix)
+	return 1
 }
